@@ -1,7 +1,27 @@
 import H5V.Proto
-/- engine `meta` (stub) -/
+import H5V.Model.Meta
+/- engine `meta`:
+   `extract <content bytes hex>` → `some <label bytes hex>` | `none` (model of encoding.rs)
+   `doc …` exercises the real tokenizer + tree builder only (no model here): `no-model`. -/
 namespace H5V.Model.MetaDriver
+open H5V.Proto H5V.Model.Meta
 
-def runCase (_fields : List String) : String := "unimplemented"
+def parseByte? (n : Nat) : Option UInt8 := if n < 256 then some (UInt8.ofNat n) else none
+
+def parseBytesStrict? (s : String) : Option (List UInt8) :=
+  (parseNums? s).bind (·.mapM parseByte?)
+
+def runCase (fields : List String) : String :=
+  match fields with
+  | ["extract", hex] =>
+    match parseBytesStrict? hex with
+    | none => "bad-case"
+    | some bs =>
+      match extract bs with
+      | .error e => "PANIC " ++ e
+      | .ok none => "none"
+      | .ok (some l) => "some " ++ showBytes l
+  | ["doc", _, _] => "no-model"
+  | _ => "bad-case"
 
 end H5V.Model.MetaDriver
